@@ -208,6 +208,7 @@ for _sfx in ("", "_async"):
         def _mkget(sfx, n):
             @contract(CTX + ".get" + sfx, prop="C16", name=f"get{sfx}[path-length-{n}: a missing path resolves to env.undefined(...), never raises]")
             def g(c):
+                c.model_int_str_limit()   # path segments are values of the render data, huge ints included
                 env = mk_env(c, undefined=VClass("liquid.undefined", "Undefined"))  # the default undefined type
                 ctx = mk_ctx(c, env)
                 root = c.any("root")
@@ -335,3 +336,133 @@ def run(m):
     v = r["violations"]
     return {"failing": bool(v), "witness": v[0]["witness"] if v else "strict-refines-default", "call": v[0]["source"] if v else "template sweep", "result": v[0]["got"] if v else "ok"}
 '''
+
+
+# ---- "With StrictUndefined, ... filtering a missing variable raises UndefinedError": many filters
+# ---- and tags first meet a value in `is_undefined(value)`; for the strict types that guard itself
+# ---- raises (Undefined is an ABC: isinstance reads value.__class__, which the strict
+# ---- __getattribute__ refuses), and for the default type it answers True without raising
+
+REPLAY_IS_UNDEFINED = r'''
+def run(m):
+    from liquid import Environment, StrictUndefined, StrictDefaultUndefined
+    from liquid.exceptions import UndefinedError
+    bad = []
+    for U_ in (StrictUndefined, StrictDefaultUndefined):
+        env = Environment(undefined=U_)
+        for src in ("{{ nosuch | date: '%Y' }}", "{{ arr | where: 'k', nosuch }}", "{{ 1.5 | round: nosuch }}", "{% cycle nosuch: 'a', 'b' %}", "{{ arr | sum: nosuch }}"):
+            try:
+                out = env.from_string(src).render(arr=[{"k": 1}])
+                bad.append((U_.__name__, src, out))
+            except UndefinedError:
+                pass
+            except Exception as e:
+                bad.append((U_.__name__, src, type(e).__name__))
+    return {"violated": bool(bad), "observed": bad[:4], "witness": "strict-undefined-passes-an-is_undefined-guard-silently"}
+'''
+
+for _S in ("Undefined", "StrictUndefined", "StrictDefaultUndefined", "FalsyStrictUndefined"):
+    def _mkisu(S):
+        @contract(UMOD + ":is_undefined", prop="C16", name=f"is_undefined[{S}]")
+        def isu(c):
+            u = mk_undef(c, S, "_v")
+            c.call(u)
+            if S in ("Undefined", "FalsyStrictUndefined"):
+                # (FalsyStrictUndefined allows __class__ by design: it is falsy in conditions and strict elsewhere)
+                c.raises()
+                c.ensures("recognised-as-undefined-without-raising", lambda r: r.truth())
+            else:
+                c.raises("UndefinedError")
+                c.ensures("a-strict-undefined-never-passes-the-guard-silently", lambda r: z3.BoolVal(False))
+            c.replay("code", code=REPLAY_IS_UNDEFINED)
+    _mkisu(_S)
+
+
+@contract(UMOD + ":is_undefined", prop="C16", name="is_undefined[any other value: False, never raises]")
+def isu_other(c):
+    v = c.any("value")
+    c.requires(z3.Not(z3.And(U.is_ref(v.t), z3.Function("ref_isinstance$Undefined", U, B)(v.t))), "not an undefined")
+    c.call(v)
+    c.raises()
+    c.ensures("false", lambda r: z3.Not(r.truth()))
+
+
+# ---- array filters that take a VALUE argument (where, reject, find, find_index, has): a missing
+# ---- variable passed as the value must give the default type's result whenever the strict run
+# ---- returns (the strict __eq__ of FalsyStrictUndefined differs from Undefined.__eq__ by design, so
+# ---- the filters may not let the undefined object reach an item comparison)
+
+ARRF = "liquid.builtin.filters.array"
+
+REPLAY_VALUE_ARG = r'''
+def run(m):
+    from liquid import Environment, FalsyStrictUndefined, StrictDefaultUndefined
+    from liquid.exceptions import LiquidError
+    bad = []
+    data = {"arr": [{"t": "hat", "k": False}, {"t": "scarf"}, {"t": "cap", "k": None}]}
+    for src in ("{{ arr | find: 'k', nosuch | map: 't' }}", "{% assign f = arr | find: 'k', nosuch %}{{ f.t }}", "{{ arr | where: 'k', nosuch | map: 't' | join: ',' }}", "{{ arr | reject: 'k', nosuch | map: 't' | join: ',' }}",
+                "{{ arr | has: 'k', nosuch }}", "{{ arr | find_index: 'k', nosuch }}"):
+        want = Environment().from_string(src).render(**data)
+        for U_ in (FalsyStrictUndefined, StrictDefaultUndefined):
+            try:
+                got = Environment(undefined=U_).from_string(src).render(**data)
+            except LiquidError:
+                continue
+            if got != want:
+                bad.append((U_.__name__, src, got, want))
+    return {"violated": bool(bad), "observed": bad[:4], "witness": "value-argument-undefined-compared-with-items"}
+'''
+
+
+def _value_arg_filter(fname):
+    for S in STRICT:
+        def _mk(S):
+            @contract(f"{ARRF}:{fname}", prop="C16", name=f"{fname}(array, key, undefined)[{S} refines Undefined]")
+            def vf(c):
+                c.eager_generators = True
+                std_globals(c)
+                s_obj = mk_undef(c, S, "_s")
+                d_obj = mk_undef(c, "Undefined", "_d")
+                recs = [c.dict(None, k=const(False), t=const("hat")), c.dict(None, t=const("scarf")), c.dict(None, k=NONE, t=const("cap"))]
+
+                def entry(eng, cc, func):
+                    outs = []
+                    for s, o in eng.run(func, cc.st, [s.alloc(HList(items=list(recs))) if False else cc.st.alloc(HList(items=list(recs))), const("k"), s_obj], {}):
+                        if isinstance(o, Raised):
+                            outs.append((s, o))
+                            continue
+                        for s2, o2 in eng.run(func, s, [s.alloc(HList(items=list(recs))), const("k"), d_obj], {}):
+                            if isinstance(o2, Raised):
+                                outs.append((s2, Ret(VTuple((o.val, VConst(("raised", o2.exc.cls)))))))
+                            else:
+                                outs.append((s2, Ret(VTuple((o.val, o2.val)))))
+                    return outs
+                c.entry = entry
+
+                def norm(r, v):
+                    items = r.engine.concrete_items(r.st, v) if isinstance(v, VRef) and isinstance(r.st.deref(v), HList) else None
+                    return ("list", tuple(items)) if items is not None else ("value", v)
+
+                def post(r):
+                    a, b = r.value.items
+                    if isinstance(b, VConst) and isinstance(b.py, tuple) and b.py[0] == "raised":
+                        return z3.BoolVal(False)
+                    na, nb = norm(r, a), norm(r, b)
+                    if na == nb:
+                        return z3.BoolVal(True)
+                    if na[0] == "value" and nb[0] == "value":
+                        try:
+                            return box(a) == box(b)
+                        except Unsupported:
+                            return z3.BoolVal(False)
+                    return z3.BoolVal(False)
+                c.ensures("strict-result-equals-default-result", post)
+                c.raises("UndefinedError", "LiquidTypeError", "FilterArgumentError")
+                c.crosscheck(off=True)
+                c.replay("code", code=REPLAY_VALUE_ARG)
+        _mk(S)
+
+
+for _f in ("where", "reject", "find", "find_index", "has"):
+    if load.find("liquid.builtin.filters.array:" + _f) is not None:
+        _value_arg_filter(_f)
